@@ -269,7 +269,7 @@ def corpus(tier, seed):
     # --- a slice through awkward concrete names and the real pandas frame
     base = [i for i in inputs if i["op"] in ("condense", "eq", "add", "profile", "dicts") and "variant" not in i]
     for inp in rng.sample(base, min(len(base), 250 if q else 3000)):
-        bl = inp.get("ballots") or inp.get("L") or inp["orders"][0]
+        bl = inp["ballots"] if "ballots" in inp else inp["L"] if "L" in inp else inp["orders"][0]      # (an empty list is a legitimate value)
         cands = sorted({c for bb in ([bl] + ([inp["R"]] if "R" in inp else [])) for b in bb for p in b["r"] for c in p}
                        | {c for bb in ([bl] + ([inp["R"]] if "R" in inp else [])) for b in bb for c, _ in b["s"]} | {"Zero", "Q"})
         if len(cands) > len(D.AWKWARD):
